@@ -16,6 +16,7 @@ extern void *__libc_malloc(size_t);
 extern void *__libc_calloc(size_t, size_t);
 extern void *__libc_realloc(void *, size_t);
 extern void __libc_free(void *);
+extern void *__libc_memalign(size_t, size_t);
 
 #define MAXW 4096
 static void *watched[MAXW];
@@ -62,6 +63,22 @@ void *realloc(void *p, size_t n) {
   return q;
 }
 
+/* every other allocation entry point of glibc: an address handed out again after a free must be seen,
+ * otherwise its next (legitimate) free would look like a double free */
+int posix_memalign(void **out, size_t align, size_t n) {
+  void *q = __libc_memalign(align, n);
+  if (!q) return 12; /* ENOMEM */
+  *out = q; on_alloc(q); return 0;
+}
+void *aligned_alloc(size_t align, size_t n) { void *q = __libc_memalign(align, n); on_alloc(q); return q; }
+void *memalign(size_t align, size_t n) { void *q = __libc_memalign(align, n); on_alloc(q); return q; }
+void *valloc(size_t n) { void *q = __libc_memalign(4096, n); on_alloc(q); return q; }
+void *pvalloc(size_t n) { void *q = __libc_memalign(4096, (n + 4095) & ~(size_t)4095); on_alloc(q); return q; }
+void *reallocarray(void *p, size_t a, size_t b) {
+  if (b && a > (size_t)-1 / b) return 0;
+  return realloc(p, a * b);
+}
+
 int verif_watch(void *p) {
   lk();
   int i = nw < MAXW ? nw++ : -1;
@@ -69,6 +86,7 @@ int verif_watch(void *p) {
   ul();
   return i;
 }
+void verif_reset(void) { lk(); nw = 0; nev = 0; ul(); }
 int verif_state_idx(int i) { return (i >= 0 && i < nw) ? state[i] : 0; }
 int verif_frees_idx(int i) { return (i >= 0 && i < nw) ? frees[i] : 0; }
 int verif_nevents(void) { return nev; }
